@@ -12,9 +12,11 @@
 //	                   yields exactly the results, GetNodes/FirstNode on gen data, Get on every representation)
 //	     disagreement: an evaluator differs from its model
 //
-// Filters: real scripts (`@`-relative). The specification and the models take a script as an abstract
-// predicate; its truth value on every node of the tree is computed with the library's Script.Match and
-// handed to the driver with the case.
+// Filters: real scripts (`@`-relative), generated as trees: all six comparison operators with the path on
+// either side, int/float constants and elements that are equal or adjacent (10 vs 10.0, 9 vs 10.0, -0.0
+// vs 0), connectives, bare paths (existence), nested filters. The library parses the text; the Lean driver
+// gets the tree and computes the truth value itself (FilterSpec.matches: the documented semantics of the
+// script specification of the C12 family) — the implementation is never asked what a script means.
 package main
 
 import (
@@ -320,6 +322,12 @@ func produce(emit func(Case)) {
 		}
 		rep.Exhaustive = append(rep.Exhaustive, fmt.Sprintf("all paths of length <= %d over an alphabet of %d fragments (every kind) x %d small trees", maxLen, len(alpha), len(trees)))
 	}
+	// 3a. every comparison operator x orientation x (constant, element) over numbers equal or adjacent
+	// across int and float, in four filter positions
+	if on("cmp") {
+		n := comparisonBox(func(p Path, t *Node) { add(p, t, "comparison_box", allReps) })
+		rep.Exhaustive = append(rep.Exhaustive, fmt.Sprintf("filter comparisons: 6 operators x path left/right x 12 constants x 13 elements (9, 10, 11, 9.0, 10.0, 11.0, 10.5, 0, 0.0, -0.0, -1, 3, 3.0) x 5 filter positions (%d paths)", n))
+	}
 	// 3b. boundary families named by the properties
 	if on("bound") {
 		i := nInt
@@ -329,7 +337,7 @@ func produce(emit func(Case)) {
 			for _, p := range []Path{
 				{fWild(), fDescent(), fChild("a")}, // descent after a multi-selection
 				{fUnion(int64(1), int64(0)), fDescent(), fChild("a")},
-				{fFilter("@ != null"), fDescent(), fChild("a")}, // a filter hands on non-containers
+				{fFilter(op2("neq", at(), knull())), fDescent(), fChild("a")}, // a filter hands on non-containers
 				{fDescent(), fDescent(), fChild("a")},
 				{fDescent(), fWild(), fDescent(), fNth(0)},
 				{fNth(0), fDescent()}, {fWild(), fDescent()}, {fDescent()}, // trailing descents (C05 only)
@@ -337,7 +345,8 @@ func produce(emit func(Case)) {
 				{fSlice(-4, -2, -4), fWild()}, {fSlice(0, maxEnd, -1)}, {fSlice(2, maxEnd, -1)},
 				{fUnion(int64(-4), "a", int64(3))}, {fUnion(int64(0), int64(0))}, {fUnion(int64(5), int64(0))},
 				{fNth(0), fUnion(int64(-1), int64(5))},
-				{fFilter("@ == null")}, {fFilter("@ > 1")},
+				{fFilter(op2("eq", at(), knull()))}, {fFilter(op2("gt", at(), ki(1)))},
+				{fFilter(at(fChild("a")))}, {fFilter(at(fChild("b"))), fChild("a")}, {fFilter(not(at(fChild("a"))))}, // a path alone: existence
 				{},
 			} {
 				add(p, t, "boundary", allReps)
@@ -396,9 +405,7 @@ func (w *worker) ask(c *Case, pw, dw string, qs []query) ([]string, error) {
 }
 
 func (w *worker) run(c Case) error {
-	nodes := c.t.all(nil)
-	truth := c.p.truthTable(nodes)
-	pw, dw := c.p.wire(truth), c.t.canon()
+	pw, dw := c.p.wire(), c.t.canon()
 	nontrivial := int64(0)
 	if len(c.p) > 0 && c.t.isContainer() {
 		nontrivial = 1
@@ -1004,12 +1011,12 @@ func (w *worker) explainC11(c *Case, pw, dw string, q query, ordered bool) (stri
 // ---- replay / corpus ---------------------------------------------------------------------------
 
 type fragJSON struct {
-	Kind   string `json:"kind"`
-	Key    string `json:"key,omitempty"`
-	N      int    `json:"n,omitempty"`
-	Mem    []any  `json:"mem,omitempty"`
-	S      []int  `json:"s,omitempty"`
-	Script string `json:"script,omitempty"`
+	Kind string `json:"kind"`
+	Key  string `json:"key,omitempty"`
+	N    int    `json:"n,omitempty"`
+	Mem  []any  `json:"mem,omitempty"`
+	S    []int  `json:"s,omitempty"`
+	Scr  *Scr   `json:"scr,omitempty"`
 }
 
 type caseJSON struct {
@@ -1017,14 +1024,46 @@ type caseJSON struct {
 	Data  string     `json:"data"`
 }
 
+func fragToJSON(f Frag) fragJSON {
+	fj := fragJSON{Kind: string(f.Kind), Key: f.Key, N: f.N, S: f.S, Scr: f.Scr.seal()}
+	for _, m := range f.Mem {
+		fj.Mem = append(fj.Mem, m)
+	}
+	return fj
+}
+
+func fragFromJSON(fj fragJSON) (Frag, error) {
+	if len(fj.Kind) != 1 {
+		return Frag{}, fmt.Errorf("bad fragment kind %q", fj.Kind)
+	}
+	f := Frag{Kind: fj.Kind[0], Key: fj.Key, N: fj.N, S: fj.S}
+	for _, m := range fj.Mem {
+		switch t := m.(type) {
+		case string:
+			f.Mem = append(f.Mem, t)
+		case float64:
+			f.Mem = append(f.Mem, int64(t))
+		case int64:
+			f.Mem = append(f.Mem, t)
+		}
+	}
+	if f.Kind == 'f' {
+		if fj.Scr == nil {
+			return Frag{}, fmt.Errorf("filter fragment without a script tree")
+		}
+		t, err := fj.Scr.unseal()
+		if err != nil {
+			return Frag{}, err
+		}
+		f = fFilter(t)
+	}
+	return f, nil
+}
+
 func encodeCase(p Path, t *Node) string {
 	cj := caseJSON{Data: t.canon(), Frags: []fragJSON{}}
 	for _, f := range p {
-		fj := fragJSON{Kind: string(f.Kind), Key: f.Key, N: f.N, S: f.S, Script: f.Script}
-		for _, m := range f.Mem {
-			fj.Mem = append(fj.Mem, m)
-		}
-		cj.Frags = append(cj.Frags, fj)
+		cj.Frags = append(cj.Frags, fragToJSON(f))
 	}
 	b, _ := json.Marshal(cj)
 	return string(b)
@@ -1076,17 +1115,9 @@ func decodeCase(b []byte) (Path, *Node, error) {
 	}
 	var p Path
 	for _, fj := range cj.Frags {
-		if len(fj.Kind) != 1 {
-			return nil, nil, fmt.Errorf("bad fragment kind %q", fj.Kind)
-		}
-		f := Frag{Kind: fj.Kind[0], Key: fj.Key, N: fj.N, S: fj.S, Script: fj.Script}
-		for _, m := range fj.Mem {
-			switch t := m.(type) {
-			case string:
-				f.Mem = append(f.Mem, t)
-			case float64:
-				f.Mem = append(f.Mem, int64(t))
-			}
+		f, err := fragFromJSON(fj)
+		if err != nil {
+			return nil, nil, err
 		}
 		p = append(p, f)
 	}
